@@ -1,36 +1,36 @@
 import json, os, shutil, glob
-W='o'
+W='p'
 rows = {
- 'C01': ("transactions without buffered changes that end in a COMMIT / ROLLBACK query dropped (position advanced, handler not called)",
-         "BEGIN directly followed by COMMIT, or a rolled-back transaction",
-         "C01: count, order (through the rolled-back units added to every family in wave j)"),
- 'C02': ("Q_FLAGS2 decoded; a DDL / statement DML with OPTION_NOT_AUTOCOMMIT set does not commit by itself",
-         "an autocommitted statement whose status variables carry flags2 with bit 0x80000",
-         "C02: grouping"),
- 'C03': ("query events whose default database is a server schema skipped, BEGIN/COMMIT included (same filter as C02-m, judged on labels)",
-         "a transaction logged by a session with default database mysql/sys/...",
-         "C03: content:count, end-label, resume-suffix, crash-restart-exactly-once"),
- 'C04': ("resume position read back from the Transaction handed to the handler (same as C03-n, judged on retries)",
-         "a consumer that rewrites the delivered Transaction, an accepted transaction, then a retry",
-         "C04: reordered, resume-coordinate"),
- 'C05': ("table lookup retried in a loop that ignores the context while the mapper's error is a timeout-like net.Error (context.DeadlineExceeded qualifies)",
-         "a mapper that fails with context.DeadlineExceeded / a net timeout, then cancellation",
+ 'C01': ("table cache keyed by the table id narrowed to 32 bits",
+         "two tables in one dump whose 6-byte ids agree in the low 32 bits",
+         "C01: count, event-table, panic, stream-result (through the confusable / boundary table ids of waves h and i)"),
+ 'C02': ("reader drops 'heartbeats' by looking at byte 4 of the raw packet (the top byte of the event timestamp) instead of the type byte",
+         "any event whose header timestamp has top byte 0x1b (a session running under SET TIMESTAMP in 1984)",
+         "C02: grouping - **missed at first** (timestamps only counted up from ~2017; a third of the histories now give one event in ten an arbitrary 32-bit timestamp)"),
+ 'C03': ("state reset in commit() guarded by tranEvents != nil: the in-transaction flag stays set after a ROLLBACK",
+         "a rolled-back transaction directly followed by a unit that commits without BEGIN",
+         "C03: content:count, resume-suffix, crash-restart-exactly-once"),
+ 'C04': ("the first commit of an attempt is skipped when it ends at the offset the attempt started from (file names not compared)",
+         "an attempt that starts at the last commit of file A, rotates into file B, and B's first transaction ends at that same offset",
+         "C04: lost, resume-coordinate; C03 too - **missed at first** (a quarter of the multi-file histories now pad a later file so that its first commit ends at exactly the offset of the previous file's last commit)"),
+ 'C05': ("deferred cleanup waits for the reader by draining the event channel, which is nil when the dump request could not be sent",
+         "connection lost between the OK for the checksum SET and the write of COM_BINLOG_DUMP",
          "C05: stream-hang"),
- 'C06': ("failed lookup for a table name that was resolved earlier in the attempt only logged, earlier definition reused",
-         "one table announced under two table ids; the mapper succeeds on the first lookup and fails on the second",
-         "C06: stream-nil-on-failure - **missed at first** (the same table under a second table id is now generated in the C06 family too)"),
- 'C07': ("ROTATE decoded straight into the running position (same line as C04-j), judged on the next dump request",
-         "an undecodable ROTATE, then another attempt",
-         "C07: offset (through the undecodable-event variants added in wave j)"),
- 'C08': ("buffers of a rolled-back transaction's rows events handed back to the reader; the list is not cleared at commit",
-         "a delivered transaction, then a ROLLBACK query that no BEGIN precedes, then a later packet",
-         "C08: mutated-after-delivery - **missed at first** (a fifth of the rolled-back units are now a bare ROLLBACK without BEGIN)"),
- 'C15': ("schema and table name lengths of a table map read as length-encoded integers",
-         "a schema or table name of exactly 252, 253 or 254 bytes",
-         "C15: attribution - **missed at first** (names of 1, 250..255 bytes are now generated; the property quantifies over 1..255)"),
- 'C17': ("reader drops 'artificial filler' packets (flag 0x20, next_position 0, not ROTATE/FDE) before the validity gate",
-         "a malformed packet of 19 bytes or more whose header says next_position 0 and carries the artificial flag",
-         "C17: accepted-malformed - **missed at first** (a sixth of the malformed packets now get next_position 0 and the artificial / ignorable / in-use flag bits, some also timestamp 0)"),
+ 'C06': ("after a parser failure Stream returns Error() instead when the reader has already posted its exit reason",
+         "a handler / mapper / decode failure on the last unit with the master's EOF (or a cancel) already read by the reader",
+         "C06: stream-nil-on-failure (the rule of wave k: a returned handler error must surface whatever overlaps)"),
+ 'C07': ("SetBinlogPosition trims white space from the file name; Stream stores resume positions through the same setter",
+         "a binlog file name that begins or ends with white space",
+         "C07: file"),
+ 'C08': ("per-event copies carved out of 256 KiB blocks; an event that fits a block exactly leaves the offset counter on a multiple of the block size",
+         "small events summing to exactly 262144 bytes at an event boundary, a retained value from the start of the block, one more packet",
+         "C08: mutated-after-delivery"),
+ 'C15': ("mapper answers memoised per schema + '.' + table",
+         "two tables whose dotted names coincide (schema a.b / table c and schema a / table b.c)",
+         "C15: mapper-call (through the odd identifiers of wave i)"),
+ 'C17': ("packets of 23 bytes or more whose last four bytes are the CRC32 of the rest skip the validity test on checksummed streams",
+         "a malformed packet with a matching CRC32 trailer",
+         "C17: accepted-malformed, panic, partial-delivery - **missed at first** (a fifth of the malformed packets of 23 bytes or more now end in the correct CRC32 of their own bytes)"),
 }
 for p,(chg,needs,caught) in rows.items():
     src=f'/tmp/wt-{p}-{W}/_seeded'
